@@ -68,14 +68,18 @@ bool observe(const Shape& sh, const std::vector<Gen>& hist, bool order_spins, do
 void relabelling(const Args& a, Recorder& rec, Clock& clk) {
     std::vector<PlanItem> plan; bool T = a.thorough();
     auto add = [&](const char* s, int d) { PlanItem it; it.shape = s; it.depth = d; it.opts.rich = false; plan.push_back(it); };
-    add("S1", T ? 2 : 1); add("S2", 2); add("S4", T ? 2 : 1); add("S4r", T ? 2 : 1); add("S6", T ? 2 : 1); if (T) { add("S3", 2); add("S7", 1); }
+    add("S1", T ? 2 : 1); add("S2", 2); add("S4", T ? 2 : 1); add("S4r", T ? 2 : 1); add("S6", T ? 2 : 1); add("S11", T ? 2 : 1); if (T) { add("S3", 2); add("S7", 1); }
     std::vector<long> ns = { -2, -1, 0, 1 }; double beta = 5.0;
     for_each_state(a, rec, plan, [&](Ctx& c) {
         std::vector<Gen> hist = hist_gens(c.A, c.st.hist);
         // skip lattices the default analysis cannot handle (C07) -- detect by trying
         Pipe P1; Obs o1;
         try { observe(c.sh, hist, false, beta, ns, P1, o1); } catch (std::exception& e) { rec.skipped++; rec.counters["skipped_pipeline_threw(C07)"]++; return; }
-        { refed::Mat Href = lattice_H(*P1.L, *P1.IC); if (maxabs(Href - Href.adjoint()) > 1e-12) { rec.skipped++; return; } Soundness s = soundness(P1, Href, false); if (!s.ok()) { rec.skipped++; rec.counters["skipped_unsound_partition(C07)"]++; return; } }
+        { refed::Mat Href = lattice_H(*P1.L, *P1.IC); bool raw = false; for (auto& g : hist) if (g.kind == RAW) raw = true;
+          // a non-Hermitian stored operator is outside the property's domain when the caller supplied it (raw terms); when it came out of
+          // the documented presets alone (C04's subject) the relabelling comparison below is still made on whatever the library computes
+          bool herm = maxabs(Href - Href.adjoint()) <= 1e-12; if (!herm && raw) { rec.skipped++; return; } if (!herm) rec.counters["nonhermitian_from_presets(C04)"]++;
+          Soundness s; s.address_ok = s.h_block_diag = s.ops_single_target = true; if (herm) s = soundness(P1, Href, false); if (!s.ok()) { rec.skipped++; rec.counters["skipped_unsound_partition(C07)"]++; return; } }
         if (nontrivial_H(lattice_H(*P1.L, *P1.IC))) rec.nontrivial++;
         // label maps: every permutation of the label set, and a rename whose sort order differs
         std::vector<std::string> labs; for (auto& s : c.sh.sites) labs.push_back(s.label);
